@@ -121,6 +121,22 @@ def mon_aborts(run, script, il, iab, ml):
                         run.cov['monitor_checks'] += 1
                         if off + e['n'] > cap:
                             run.violation('%s sent %d bytes from offset %d of the %d-byte packet buffer to the FIFO' % (f['op'], e['n'], off, cap), script, {'line': l})
+            # ... and every FIFO read of the FSK/OOK handler lands in device->packet at the number of bytes
+            # received so far (up to two header bytes - length, address - go to locals first)
+            if f['op'] == 'irq' and am in (FSK, OOK) and int(prev_h.get('om', '0')) in (5, 6):
+                off = int(prev_h.get('rcv', '0'))
+                hdr_allow = 2 if prev_h.get('exp', '0') == '0' else 0
+                for e in spi_entries(f.get('spi')):
+                    if e['kind'] in ('RB', 'R') and e['reg'] == 0 and e['fault'] is None:
+                        if hdr_allow > 0 and e['n'] <= hdr_allow and off == 0:
+                            hdr_allow -= e['n']
+                            continue
+                        hdr_allow = 0
+                        run.cov['monitor_checks'] += 1
+                        if off + e['n'] > cap:
+                            run.violation('%s read %d bytes from the FIFO to offset %d of the %d-byte packet buffer' % (f['op'], e['n'], off, cap), script, {'line': l})
+                            break
+                        off += e['n']
             prev_h = handle_of(f) or prev_h
 
 def script_op_at(script, n):
@@ -283,6 +299,15 @@ def mon_expect(run, script, il, iab, ml):
                                   {'expected': data, 'got': rx[0]['data']})
             elif rx:
                 run.violation('CRC-failed FSK/OOK packet was delivered', script)
+            # the packet format the chip applies (RegPacketConfig1 as the handler itself read it) is the one the
+            # application configured through the API, i.e. the one the handle parses the FIFO with
+            for fq in irqs:
+                r30 = [e for e in spi_entries(fq.get('spi')) if e['kind'] == 'R' and e['reg'] == 0x30 and e['fault'] is None and e['data']]
+                hf = handle_of(fq).get('fmt')
+                if r30 and hf is not None and (int(r30[0]['data'], 16) & 0x80) != (int(hf, 16) & 0x80):
+                    run.violation('the chip applies packet format bit %d (RegPacketConfig1=%s) while the handle parses the FIFO with format %s, after sx127x_fsk_ook_set_packet_format returned OK' % (
+                        int(r30[0]['data'], 16) >> 7, r30[0]['data'], hf), script)
+                    break
             if last and (last.get('uf') != '0'):
                 run.violation('FIFO read while empty during FSK/OOK reception', script)
             if last:
@@ -469,6 +494,13 @@ def mon_expect(run, script, il, iab, ml):
                 if il[k].startswith('chip '):
                     chips.append(il[k])
                 k -= 1
+        elif kind == 'resumeopmod' and P == 'C17':
+            run.cov['monitor_checks'] += 1
+            want = int(args[0])
+            f = last or {}
+            w1 = [int(e['data'], 16) for e in spi_entries(f.get('spi')) if e['kind'] == 'W' and e['reg'] == 1]
+            if any((v & 7) != want for v in w1):
+                run.violation('while the fresh handle was told what the chip runs, the receiver was taken out of receive mode (RegOpMode written %s)' % ['%02x' % v for v in w1], script)
         elif kind == 'resume' and P == 'C17':
             run.cov['monitor_checks'] += 1
             data = '' if args[0] == '-' else args[0]
